@@ -454,6 +454,9 @@ func (rn *runner) pickStream(r *vh.Rand) *gstream {
 	g := rn.gs[id]
 	if g == nil {
 		g = &gstream{id: id, total: r.Range(1, 600)}
+		if w := rn.windowOf(id); w < 600 && w >= 1 && r.Chance(75) {
+			g.total = r.Range(1, w) // mostly streams that fit a small window
+		}
 		if r.Chance(10) {
 			g.total = 0
 		}
@@ -626,7 +629,7 @@ func (rn *runner) offender(r *vh.Rand) string {
 }
 
 var swinChoices = []int64{0, 0, 0, 150, 300, 700, 5000, 5000}
-var cwinChoices = []int64{0, 0, 0, 400, 1500, 8000, 8000}
+var cwinChoices = []int64{0, 0, 0, 0, 400, 1500, 8000, 8000}
 
 func (rn *runner) GenOp(r *vh.Rand, i int) string {
 	if rn.dead || rn.ended {
